@@ -304,4 +304,84 @@ let () =
       set s c
     | _ -> "badargs")
 
+(* ------------------------------------------------------------------ HC streams at levels 3..12 (Model/HcOptStream.v: hash chain + optimal parser) *)
+let octxs : (int, tctx) Hashtbl.t = Hashtbl.create 16
+let oattached : (int, int) Hashtbl.t = Hashtbl.create 16
+let ogetc sid = match Hashtbl.find_opt octxs sid with Some c -> c | None -> ts_init
+
+let show_octx (c : tctx) =
+  let k = c.ts_hs.hs_core in
+  Printf.sprintf "end=%s ps=%s ds=%s dl=%s ll=%s ntu=%s lvl=%s dirty=%d dctx=%s ht=%s ct=%s fav=%d"
+    (zstr k.k_end) (zstr k.k_prefixStart) (zstr k.k_dictStart) (zstr k.k_dictLimit) (zstr k.k_lowLimit) (zstr k.k_ntu)
+    (zstr k.k_level) (if k.k_dirty then 1 else 0) (match c.ts_hs.hs_dctx with None -> "0" | Some _ -> "1")
+    (hash_digest k.k_h4) (chain_digest c.ts_chain) (if c.ts_fav then 1 else 0)
+let show_ores ret consumed out c = Printf.sprintf "%s %s %s %s" (zstr ret) (zstr consumed) (show_bytes out) (show_octx c)
+
+let orefresh sid =
+  let c = ogetc sid in
+  match c.ts_hs.hs_dctx, Hashtbl.find_opt oattached sid with
+  | Some _, Some did ->
+    let d = ogetc did in
+    let c' = { c with ts_hs = { c.ts_hs with hs_dctx = Some d.ts_hs.hs_core }; ts_dchain = d.ts_chain; ts_dfav = d.ts_fav } in
+    Hashtbl.replace octxs sid c'; c'
+  | _ -> c
+
+let ofinish s (r : tsres option) =
+  match r with
+  | None -> "out"
+  | Some (TRes (ret, consumed, out, hw, c)) ->
+    Hashtbl.replace octxs s c;
+    if c.ts_hs.hs_dctx = None then Hashtbl.remove oattached s;
+    show_ores ret consumed out c ^ " hw=" ^ zstr hw
+
+let () =
+  let set s c = Hashtbl.replace octxs s c; show_ores (z 0) (z 0) [] c in
+  reg "reset" (function _ -> mem := empty_mem; Hashtbl.reset ctxs; Hashtbl.reset attached; Hashtbl.reset hctxs; Hashtbl.reset hattached;
+                Hashtbl.reset octxs; Hashtbl.reset oattached; "ok");
+  reg "oinit" (function [sid] -> let s = ios sid in Hashtbl.remove oattached s; set s ts_init | _ -> "badargs");
+  reg "ors" (function [sid; l] -> let s = ios sid in Hashtbl.remove oattached s; set s (ts_resetStream (zs l)) | _ -> "badargs");
+  reg "orsf" (function [sid; l] -> let s = ios sid in let c = ts_resetFast (orefresh s) (zs l) in Hashtbl.remove oattached s; set s c | _ -> "badargs");
+  reg "olvl" (function [sid; l] -> let s = ios sid in set s (ts_setLevel (ogetc s) (zs l)) | _ -> "badargs");
+  reg "ofav" (function [sid; f] -> let s = ios sid in set s (ts_setFav (ogetc s) (f = "1")) | _ -> "badargs");
+  reg "old" (function [sid; a; n] ->
+      let s = ios sid in
+      (match os_loadDict !mem (ogetc s) (zs a) (zs n) with
+       | None -> "out"
+       | Some (c, r) -> Hashtbl.replace octxs s c; Hashtbl.remove oattached s; show_ores r (z 0) [] c)
+    | _ -> "badargs");
+  reg "oatt" (function [sid; did] ->
+      let s = ios sid and d = ios did in
+      let c = ts_attach (ogetc s) (if d < 0 then None else Some (ogetc d)) in
+      if d >= 0 then Hashtbl.replace oattached s d else Hashtbl.remove oattached s;
+      set s c
+    | _ -> "badargs");
+  reg "ocont" (function [sid; a; n; cap] -> let s = ios sid in ofinish s (os_continue !mem (orefresh s) (zs a) (zs n) (zs cap)) | _ -> "badargs");
+  reg "ocds" (function [sid; a; n; cap] -> let s = ios sid in ofinish s (os_continue_destSize !mem (orefresh s) (zs a) (zs n) (zs cap)) | _ -> "badargs");
+  reg "osave" (function [sid; a; n] ->
+      let s = ios sid in
+      let ((m', c'), r) = ts_saveDict !mem (orefresh s) (zs a) (zs n) in
+      mem := m'; Hashtbl.replace octxs s c';
+      if c'.ts_hs.hs_dctx = None then Hashtbl.remove oattached s;
+      let saved = load_list m' (zs a) r in
+      show_ores r (z 0) [] c' ^ " mem=" ^ Digest.to_hex (Digest.string (string_of_bytes saved))
+    | _ -> "badargs");
+  reg "ofr" (function [sid; a; n; cap; l] -> let s = ios sid in ofinish s (os_fastReset !mem (orefresh s) (zs a) (zs n) (zs cap) (zs l)) | _ -> "badargs");
+  reg "oext" (function [sid; a; n; cap; l] -> let s = ios sid in Hashtbl.remove oattached s; ofinish s (os_extState !mem (zs a) (zs n) (zs cap) (zs l)) | _ -> "badargs");
+  (* cimport sid end ps ds dl ll ntu lvl dirty <hashTable: 32768 LE U32 in hex><chainTable: 65536 LE U16 in hex> *)
+  reg "oimport" (function [sid; e; ps; ds; dl; ll; ntu; lvl; dirty; fav; tab] ->
+      let s = ios sid in
+      let byte i = hexval tab.[2*i] * 16 + hexval tab.[2*i + 1] in
+      let word i = byte (4*i) + 256 * byte (4*i+1) + 65536 * byte (4*i+2) + 16777216 * byte (4*i+3) in
+      let half i = byte (131072 + 2*i) + 256 * byte (131072 + 2*i + 1) in
+      let rec fill m f n i = if i >= n then m else
+          let v = f i in fill (if v = 0 then m else store_list m (z i) [z v]) f n (i + 1) in
+      let ht = fill empty_mem word 32768 0 and ct = fill empty_mem half 65536 0 in
+      let k = { k_h4 = ht; k_h8 = empty_mem; k_end = zs e; k_prefixStart = zs ps; k_dictStart = zs ds; k_dictLimit = zs dl; k_lowLimit = zs ll;
+                k_ntu = zs ntu; k_level = zs lvl; k_dirty = (dirty = "1") } in
+      let old = ogetc s in
+      let c = { ts_hs = { hs_core = k; hs_dctx = old.ts_hs.hs_dctx }; ts_chain = { ct_m = ct; ct_def = z 0 }; ts_dchain = old.ts_dchain; ts_fav = (fav = "1"); ts_dfav = old.ts_dfav } in
+      set s c
+    | _ -> "badargs")
+
+
 let () = Common.main ()
